@@ -22,7 +22,8 @@ SrcDrift(s, e) ==
                                    s.rls[AqIr(s, i)]))}
       dr == {i \in DOMAIN e.rq : \E t \in Slots :
                Differs(e.rq[i].o[t],
-                       ImplRefOp(g, x, s.acs[RqIa(s, i)], s.rls[RqIo(s, i)]))}
+                       ImplRefOp(OpOfSlot(t), g, x, s.acs[RqIa(s, i)],
+                                 s.rls[RqIo(s, i)]))}
   IN Bad("associators", da) \cup Bad("references", dr)
 
 ClsDiffers(r, m) == Ran(r) /\ (r.k # m.k \/ (r.k = "ok" /\ Rng(r.cs) # m.S))
@@ -38,12 +39,17 @@ ClsDrift(s, e) ==
                                             s.rls[RqIo(s, i)]))}
   IN Bad("class-associators", da) \cup Bad("class-references", dr)
 
+(* AssocImpl's Create / Modify store every copy under its own path *)
+GraphDrift(e) ==
+  Bad("stored-copy-path-names-another-namespace",
+      {j \in DOMAIN e.assocs : e.assocs[j].pns # e.assocs[j].ns})
+
 (* the impl state is the requirement state (graph + filter lists) *)
 ImplCmp(i, e) ==
   LET n == Apply(i, e) IN
   IF e.op = "src" /\ Len(i.G.nodes) <= DriftMaxNodes THEN <<SrcDrift(i, e), i>>
   ELSE IF e.op = "cls" THEN <<ClsDrift(i, e), i>>
-  ELSE IF e.op = "graph" THEN <<{}, [n EXCEPT !.done = <<>>]>>
+  ELSE IF e.op = "graph" THEN <<GraphDrift(e), [n EXCEPT !.done = <<>>]>>
   ELSE <<{}, i>>
 
 TraceBatch == JsonDeserialize(IOEnv.TRACE_FILE).traces
